@@ -12,7 +12,7 @@
     [replay] applies Add/Update/Delete calls strictly (Add of a held name,
     Update/Delete of an absent one is an error). *)
 From Gnmi Require Import Base.Prelude TargetCfg.TargetCfgModel TargetCfg.TargetCfgProofs
-  TargetCfg.TargetCfgCheck TargetCfg.TargetCfgKSound.
+  TargetCfg.TargetCfgConcProofs TargetCfg.TargetCfgCheck TargetCfg.TargetCfgKSound.
 Open Scope Z_scope.
 
 (** a load is applied iff its argument is a valid configuration and (there is
@@ -205,3 +205,80 @@ Theorem C17_history_monotonic :
     rev_le (rev_of s) (rev_of (fst (run_gen R_eqb O_eqb R_empty O_empty p s hs))).
 Proof. exact @history_monotonic. Qed.
 Print Assumptions C17_history_monotonic.
+
+(** ** overlapping Loads on one Config ([lstep]: Validate outside the mutex;
+    lock + revision gate; one handler call per step with the mutex held;
+    store + unlock; a thread that finds the mutex held does not move) *)
+
+(** any number of threads, ANY schedule, every reachable state: state and
+    global handler-call sequence are those of a sequential run of the loads
+    that have returned, in the order they returned, followed by a prefix of the
+    calls of the load that holds the mutex -- calls of one load are contiguous *)
+Theorem C17_conc_invariant :
+  forall (R O X : Type) (R_eqb : R -> R -> bool) (O_eqb : O -> O -> bool) (R_empty : R) (O_empty : O)
+         (p : bool) (args : list (option (config R O X))) (s0 : state R O X) (sch : list nat),
+    let g := lexec R_eqb O_eqb R_empty O_empty p args (ginit s0 (List.length args)) sch in
+    g_cfg g = fst (seq_run R_eqb O_eqb R_empty O_empty p args s0 (g_order g))
+    /\ g_trace g = snd (seq_run R_eqb O_eqb R_empty O_empty p args s0 (g_order g)) ++ holder_part g
+    /\ (forall h : nat,
+          g_lock g = Some h ->
+          exists (cf : config R O X) (rem : list (call R O)),
+            nth_error args h = Some (Some cf)
+            /\ load_calls R_eqb O_eqb R_empty O_empty p (g_cfg g) (Some cf) = g_emitted g ++ rem)
+    /\ (g_lock g = None -> holder_part g = []).
+Proof. exact @conc_invariant. Qed.
+Print Assumptions C17_conc_invariant.
+
+(** once all threads have returned: SOME sequential order of all the loads
+    explains the final state and the whole call sequence *)
+Theorem C17_conc_serialisable :
+  forall (R O X : Type) (R_eqb : R -> R -> bool) (O_eqb : O -> O -> bool) (R_empty : R) (O_empty : O)
+         (p : bool) (args : list (option (config R O X))) (s0 : state R O X) (sch : list nat),
+    let g := lexec R_eqb O_eqb R_empty O_empty p args (ginit s0 (List.length args)) sch in
+    all_done g = true ->
+    exists order : list nat,
+      Permutation order (seq 0 (List.length args))
+      /\ g_cfg g = fst (seq_run R_eqb O_eqb R_empty O_empty p args s0 order)
+      /\ g_trace g = snd (seq_run R_eqb O_eqb R_empty O_empty p args s0 order).
+Proof. exact @conc_serialisable. Qed.
+Print Assumptions C17_conc_serialisable.
+
+(** hence [replay_converges] carries over to overlapping Loads: replaying the
+    calls in the global order in which they were made yields exactly the
+    effective current configuration *)
+Theorem C17_conc_replay_converges :
+  forall (R O X : Type) (R_eqb : R -> R -> bool) (O_eqb : O -> O -> bool) (R_empty : R) (O_empty : O)
+         (p : bool) (args : list (option (config R O X))) (s0 : state R O X),
+    (forall a b : R, R_eqb a b = true <-> a = b) ->
+    (forall a b : O, O_eqb a b = true <-> a = b) ->
+    forall sch : list nat,
+      state_ok s0 ->
+      Forall (fun a : option (config R O X) =>
+                match a with Some cf => wf_config cf | None => True end) args ->
+      let g := lexec R_eqb O_eqb R_empty O_empty p args (ginit s0 (List.length args)) sch in
+      all_done g = true ->
+      exists e : eff R O,
+        replay (map snd (g_trace g)) (effective s0) = Some e
+        /\ Permutation e (effective (g_cfg g)).
+Proof. exact @conc_replay_converges. Qed.
+Print Assumptions C17_conc_replay_converges.
+
+(** K_P on two overlapping Loads: no tag => the observed global order is
+    load-contiguous, the second load returned early only if refused before the
+    mutex, each load passes K_P on its own, the replay in call order is right *)
+Theorem C17_K_sound_par :
+  forall (st : option cfg) (rep : option ceff) (a b : option cfg) (early : bool)
+         (tr : list (nat * ccall)) (ea eb : bool) (cur st' : option cfg) (rep' : option ceff),
+    kstep st rep (OPar a b) (RPar early tr ea eb cur) = ([], st', rep') ->
+    contiguous (map fst tr) = true
+    /\ (early = true ->
+        eb = true /\ match b with Some c => ~ valid_p true c | None => True end)
+    /\ exists st1 rep1 rep2,
+         kstep st rep (OLoad a)
+               (RLoad ea (calls_of 0 tr) (shown (if admissible st a ea then a else st)))
+         = ([], st1, rep1)
+         /\ kstep st1 rep1 (OLoad b) (RLoad eb (calls_of 1 tr) cur) = ([], st', rep2)
+         /\ rep' = replay_step rep (map snd tr)
+         /\ rep_ok rep' st' = true.
+Proof. exact kstep_par_sound. Qed.
+Print Assumptions C17_K_sound_par.
